@@ -359,7 +359,9 @@ func checkC14(c *Cell, seed uint64, orders int, tier, out string, res *Result, s
 		return
 	}
 	res.Generations++
-	for k := 0; k < 2 && k < orders; k++ {
+	// (only when moq's own code uses goroutines or sync: the property speaks of
+	// fresh instances, not of instances used at the same time)
+	for k := 0; k < 2 && k < orders && os.Getenv("GENSIM_CONCURRENT") == "1"; k++ {
 		tp := tape.New(tape.Mix(base, uint64(5000+k)))
 		d := partnerOf[c.ID]
 		if d == nil {
